@@ -1753,7 +1753,7 @@ Proof.
   destruct (skipn_suffix_props n k _ c anc E Hr Hv Ho) as [Hr' [Hv' Ho']].
   assert (Hin : In c (s_levels st)).
   { rewrite <- (firstn_skipn k (s_levels st)), E. apply in_or_app. right. now left. }
-  repeat split.
+  split; [|split; [|split]].
   - now apply (rids_compose n).
   - now apply view_composes_to_root.
   - pose proof (refresh_up_inv _ _ Hinv) as Hinv'.
@@ -1816,7 +1816,118 @@ Proof.
     inversion Hw' as [|? ? _ Hw'']; subst.
     destruct Hv as [[Hlen _] Hv].
     destruct (chain_c2r (p :: anc') Hw'' Hv) as [R HR].
-    rewrite Hlen, Nat2Z.id. eexists. now apply c2r_child. }
+    rewrite Hlen, Nat2Z.id. exists (select (f_all (l_filt p)) R).
+    exact (c2r_child p anc' R HR). }
   destruct Hc as [R HR]. rewrite HR.
   destruct anc; reflexivity.
 Qed.
+
+(* ======================================================================== *)
+(* 9. Sibling children: two branches below shared ancestors                  *)
+(* ======================================================================== *)
+Theorem sib_rejuvenate_view (s : sib) :
+  (let s' := fst (sib_step s (3, 0, 0, 0, 0)) in
+   view_ok (sb_a s' ++ sb_anc s'))
+  /\ (let s' := fst (sib_step s (13, 0, 0, 0, 0)) in
+      view_ok (sb_b s' ++ sb_anc s')).
+Proof.
+  split; cbv zeta; unfold sib_step.
+  - change (3 / 10) with 0. change (3 mod 10) with 3.
+    cbn [Z.eqb Pos.eqb step fst s_levels sb_a sb_anc s_img].
+    rewrite firstn_skipn. apply refresh_view.
+  - change (13 / 10) with 1. change (13 mod 10) with 3.
+    cbn [Z.eqb Pos.eqb step fst s_levels sb_b sb_anc s_img].
+    rewrite firstn_skipn. apply refresh_view.
+Qed.
+
+Lemma Forall2_app_split {A B} (R : A -> B -> Prop) xs : forall xs' ys ys',
+  length xs = length xs' ->
+  Forall2 R (xs ++ ys) (xs' ++ ys') -> Forall2 R xs xs' /\ Forall2 R ys ys'.
+Proof.
+  induction xs as [|x xs IH]; intros [|x' xs'] ys ys' Hl H; simpl in *;
+    try discriminate.
+  - split; [constructor|exact H].
+  - inversion H; subst. destruct (IH xs' ys ys') as [H1 H2]; [lia|assumption|].
+    split; [constructor|]; assumption.
+Qed.
+
+Definition sib_inv (s : sib) : Prop :=
+  Forall2 linv (sb_ga s ++ sb_ganc s) (sb_a s ++ sb_anc s)
+  /\ Forall2 linv (sb_gb s ++ sb_ganc s) (sb_b s ++ sb_anc s)
+  /\ length (sb_ga s) = length (sb_a s)
+  /\ length (sb_gb s) = length (sb_b s).
+
+Lemma Forall2_length' {A B} (R : A -> B -> Prop) xs ys :
+  Forall2 R xs ys -> length xs = length ys.
+Proof. induction 1; simpl; congruence. Qed.
+
+Theorem sib_step_inv s op : sib_inv s -> sib_inv (fst (sib_step s op)).
+Proof.
+  intros [HA [HB [La Lb]]]. destruct op as [[[[tag a] b] c] d].
+  unfold sib_step.
+  destruct (tag mod 10 =? 7).
+  { destruct (sb_b s) as [|x xs] eqn:Eb; cbn [fst]; [|repeat split; try rewrite Eb; assumption].
+    destruct (sb_gb s); [|discriminate].
+    unfold sib_inv; cbn. repeat split; assumption. }
+  destruct (Forall2_app_split _ _ _ _ _ La HA) as [HA1 HA2].
+  destruct (Forall2_app_split _ _ _ _ _ Lb HB) as [HB1 HB2].
+  destruct (tag / 10 =? 0).
+  - pose proof (step_inv (mkstate (sb_a s ++ sb_anc s) (sb_img s))
+                         (sb_ga s ++ sb_ganc s) (tag mod 10, a, b, c, d) HA) as H.
+    destruct (step (mkstate (sb_a s ++ sb_anc s) (sb_img s))
+                   (tag mod 10, a, b, c, d)) as [st' out]. cbn [fst] in *.
+    set (k := (length (s_levels st') - length (sb_anc s))%nat).
+    destruct (Forall2_firstn_skipn _ _ _ k H) as [H1 H2].
+    unfold sib_inv; cbn [sb_a sb_b sb_anc sb_ga sb_gb sb_ganc].
+    repeat split.
+    + rewrite !firstn_skipn. exact H.
+    + apply Forall2_app; assumption.
+    + eapply Forall2_length'; exact H1.
+    + exact Lb.
+  - pose proof (step_inv (mkstate (sb_b s ++ sb_anc s) (sb_img s))
+                         (sb_gb s ++ sb_ganc s) (tag mod 10, a, b, c, d) HB) as H.
+    destruct (step (mkstate (sb_b s ++ sb_anc s) (sb_img s))
+                   (tag mod 10, a, b, c, d)) as [st' out]. cbn [fst] in *.
+    set (k := (length (s_levels st') - length (sb_anc s))%nat).
+    destruct (Forall2_firstn_skipn _ _ _ k H) as [H1 H2].
+    unfold sib_inv; cbn [sb_a sb_b sb_anc sb_ga sb_gb sb_ganc].
+    repeat split.
+    + apply Forall2_app; assumption.
+    + rewrite !firstn_skipn. exact H.
+    + exact La.
+    + eapply Forall2_length'; exact H1.
+Qed.
+
+Lemma sib_init_inv n cols : sib_inv (sib_init n cols).
+Proof.
+  unfold sib_inv, sib_init; cbn [sb_a sb_b sb_anc sb_ga sb_gb sb_ganc app].
+  repeat split; try reflexivity; apply (init_inv n cols).
+Qed.
+
+(* For every root dataset and every history on two branches below shared
+   ancestors (operations and refreshes through either branch in any order):
+   on both chains the manual exclusions keep their meaning in root ids
+   (every level satisfies [linv] for its tracked intent). *)
+Theorem sib_history_inv n cols ops :
+  sib_inv (fst (sib_run (sib_init n cols) ops)).
+Proof.
+  assert (G : forall s, sib_inv s -> sib_inv (fst (sib_run s ops))).
+  { induction ops as [|o ops IH]; intros s H; [exact H|].
+    cbn [sib_run]. pose proof (sib_step_inv s o H) as H1.
+    destruct (sib_step s o) as [s1 o1]. cbn [fst] in H1.
+    pose proof (IH s1 H1) as H2. destruct (sib_run s1 ops). exact H2. }
+  apply G, sib_init_inv.
+Qed.
+
+Example ex_sib :
+  let s := fst (sib_run (sib_init 8 ex_cols)
+                  [ (6,0,0,0,0); (7,0,0,0,0); (6,0,0,0,0); (16,0,0,0,0);
+                    (1,2,1,0,0); (11,2,3,0,0); (0,0,0,2,6); (3,0,0,0,0);
+                    (13,0,0,0,0) ]) in
+  (map (fun l => f_manual (l_filt l)) (sb_a s),
+   map (fun l => f_manual (l_filt l)) (sb_b s),
+   map (fun l => f_rids (l_filt l)) (sb_b s),
+   map g_excl (sb_ga s), map g_excl (sb_gb s))
+  = ([[true; true; true; true; true]], [[true; false; true; true; true]],
+     [[2; 3; 4; 5; 6]], [[1]], [[3]]).
+Proof. vm_compute. reflexivity. Qed.
